@@ -18,6 +18,7 @@
 #include <symengine/visitor.h>
 #include <symengine/eval_double.h>
 #include <thread>
+#include <atomic>
 
 using namespace sim;
 using namespace SymEngine;
@@ -116,6 +117,23 @@ Json inverse_special(Rng &g)
     return r;
 }
 
+// replace the last symbol / integer leaf of a recipe by a different one
+bool change_last_leaf(Json &r)
+{
+    if (r.type != Json::Array || r.size() == 0 || r[0].type != Json::String)
+        return false;
+    if ((r[0].s == "sym" || r[0].s == "int") && r.size() >= 2) {
+        r.a[1] = Json((long long)(r[1].as_int() + 1));
+        return true;
+    }
+    if (r[0].s == "ref" || r[0].s == "const" || r[0].s == "rat" || r[0].s == "cplx")
+        return false;
+    for (size_t k = r.size(); k-- > 1;)
+        if (change_last_leaf(r.a[k]))
+            return true;
+    return false;
+}
+
 Json gen_op(Rng &g, unsigned nshared)
 {
     Json o = Json::object();
@@ -139,7 +157,9 @@ Json gen_op(Rng &g, unsigned nshared)
         o["n"] = (long long)g.range(-2, 4);
     if (k == "fn") {
         static const char *fs[] = {"sin", "cos", "tan", "exp", "log", "abs", "sqrt",
-                                   "asin", "atan", "sinh", "gamma", "sign", "conjugate"};
+                                   "asin", "atan", "sinh", "gamma", "sign", "cosh"};
+        // (conjugate is left out: conjugate(zoo*x) makes an invalid downcast
+        // inside the constructor whatever the schedule - not a C41 matter)
         o["f"] = fs[g.below(13)];
     }
     if (k == "copy")
@@ -172,6 +192,22 @@ Json gen(uint64_t seed, const std::string &tier)
             default:
                 shared.push(simx::rnum(g, p, 1 + (int)g.below(3), i));
         }
+    }
+    // siblings: the same recipe with one leaf changed, placed right after the
+    // original, so that eq / __cmp__ between the two walk both trees to the
+    // end instead of stopping at the first cheap difference
+    std::vector<std::pair<unsigned, unsigned>> sib;
+    if (g.chance(1, 2)) {
+        unsigned ns = 1 + (unsigned)g.below(2);
+        for (unsigned i = 0; i < ns && shared.size() < 10; i++) {
+            unsigned k = (unsigned)g.below(nshared);
+            Json twin = shared[k];
+            if (!change_last_leaf(twin))
+                continue;
+            sib.emplace_back(k, (unsigned)shared.size());
+            shared.push(twin);
+        }
+        nshared = (unsigned)shared.size();
     }
     plan["shared"] = shared;
     unsigned nthreads = 2 + (unsigned)g.below(MAXTHREADS - 1);
@@ -206,6 +242,38 @@ Json gen(uint64_t seed, const std::string &tier)
         for (unsigned t = 0; t < nthreads; t++)
             threads.a[t]["ops"].a.insert(threads.a[t]["ops"].a.begin(), o);
     }
+    for (auto &pr : sib) {
+        // several threads compare the original with its sibling
+        for (unsigned t = 0; t < nthreads; t++) {
+            if (!g.chance(2, 3))
+                continue;
+            Json o = Json::object();
+            o["op"] = g.chance(2, 3) ? "cmp" : "eq";
+            o["a"] = (long long)(g.chance(1, 2) ? pr.first : pr.second);
+            o["b"] = (long long)(o["a"].as_int() == (long long)pr.first ? pr.second : pr.first);
+            auto &v = threads.a[t]["ops"].a;
+            v.insert(v.begin() + (long)g.below(v.size() + 1), o);
+        }
+    }
+    // hand-off objects: owned by the worker threads alone (the main thread
+    // gives every thread one reference and drops its own), released by them
+    // through reset(), assignment or destruction: each must die exactly once
+    unsigned nhand = g.chance(1, 2) ? 1 + (unsigned)g.below(3) : 0;
+    plan["handoff"] = nhand;
+    for (unsigned h = 0; h < nhand; h++)
+        for (unsigned t = 0; t < nthreads; t++) {
+            Json o = Json::object();
+            o["op"] = "drop";
+            o["h"] = h;
+            static const char *how[] = {"reset", "assign", "destroy", "assign_shared"};
+            o["how"] = how[g.below(4)];
+            o["a"] = (long long)g.below(nshared);
+            o["b"] = 0;
+            auto &v = threads.a[t]["ops"].a;
+            // late in the list, so that the releases of different threads meet
+            size_t lo = v.size() * 2 / 3;
+            v.insert(v.begin() + (long)(lo + g.below(v.size() - lo + 1)), o);
+        }
     plan["threads"] = threads;
     // ---- scheduler swarm configuration
     Json sc = Json::object();
@@ -254,6 +322,19 @@ Json gen(uint64_t seed, const std::string &tier)
 struct ThreadOut {
     std::vector<std::string> results;
     std::vector<std::string> dummies;
+    std::vector<RCP<const Basic>> hand; // this thread's references to the hand-off objects
+};
+
+// a library object whose destruction the harness can count
+std::atomic<int> g_tracked_dtors{0};
+class Tracked : public Symbol
+{
+public:
+    explicit Tracked(const std::string &n) : Symbol(n) {}
+    ~Tracked() override
+    {
+        g_tracked_dtors.fetch_add(1);
+    }
 };
 
 RCP<const Basic> operand(const simx::Pool &shared, const simx::Pool &local, int64_t k)
@@ -338,6 +419,24 @@ std::string do_op_raw(const Json &o, const simx::Pool &shared, simx::Pool &local
         local.push_back(add(d, a));
         tainted = true;
         return "dummy";
+    }
+    if (k == "drop") {
+        size_t h = (size_t)o.geti("h");
+        if (h >= out.hand.size() || out.hand[h].is_null())
+            return "drop:none";
+        std::string how = o.gets("how");
+        if (how == "reset")
+            out.hand[h].reset();
+        else if (how == "assign")
+            out.hand[h] = RCP<const Basic>(); // copy assignment from a null RCP
+        else if (how == "assign_shared")
+            out.hand[h] = a; // copy assignment: releases the old pointee
+        else {
+            std::vector<RCP<const Basic>> v;
+            v.push_back(std::move(out.hand[h]));
+            out.hand[h] = RCP<const Basic>();
+        } // destructor of the moved-to element
+        return "drop:" + how;
     }
     if (k == "copy") {
         // copy and drop references to shared nodes in and out of containers
@@ -485,6 +584,13 @@ void exec(Run &run)
             cfg.num[i] = (unsigned)num[i].as_int();
     }
     std::vector<ThreadOut> outs((size_t)nthreads);
+    int nhand = (int)std::min<int64_t>(4, std::max<int64_t>(0, run.plan.geti("handoff")));
+    g_tracked_dtors.store(0);
+    for (int h = 0; h < nhand; h++) {
+        RCP<const Basic> obj = make_rcp<const Tracked>("handoff" + std::to_string(h));
+        for (auto &o : outs)
+            o.hand.push_back(obj);
+    } // the main thread's reference is gone: the workers are the only owners
     simsched::begin(nthreads, cfg);
     std::vector<std::thread> ths;
     for (int t = 0; t < nthreads; t++)
@@ -514,6 +620,8 @@ void exec(Run &run)
         run.fail("liveness", "scheduler reported deadlock or step cap");
         return;
     }
+    for (auto &o : outs)
+        o.hand.clear(); // hand-off references a thread did not release itself
     // ---- conservation of reference counts
     for (size_t i = 0; i < shared.size(); i++) {
         // atoms may be the library's global singletons (zero, one, pi, ...),
@@ -528,6 +636,17 @@ void exec(Run &run)
                      "shared expression #" + std::to_string(i) + " had use_count "
                          + std::to_string(before[i]) + " before the threads ran and "
                          + std::to_string(now) + " after they were joined");
+            return;
+        }
+    }
+    // ---- hand-off objects: every one destroyed exactly once
+    if (nhand) {
+        run.probe("handoff_objects_released_by_workers");
+        int d = g_tracked_dtors.load();
+        if (d != nhand) {
+            run.fail("handoff-object-not-destroyed-exactly-once",
+                     std::to_string(nhand) + " objects owned by the worker threads alone were destroyed "
+                         + std::to_string(d) + " times in total");
             return;
         }
     }
@@ -549,6 +668,8 @@ void exec(Run &run)
     unsigned compared = 0;
     for (int t = 0; t < nthreads; t++) {
         ThreadOut ref;
+        for (int h = 0; h < nhand; h++)
+            ref.hand.push_back(make_rcp<const Tracked>("handoff" + std::to_string(h)));
         run_ops(threads[(size_t)t].at("ops"), fresh, ref, false);
         const auto &got = outs[(size_t)t].results;
         if (got.size() != ref.results.size()) {
